@@ -137,7 +137,29 @@ func H_C15_reuse() {
 		}
 		return "<Type:float64>"
 	}
-	switch vxrt.Choice("scenario", 3) {
+	switch vxrt.Choice("scenario", 5) {
+	case 4: // a Custom callback that masks with nil: the value at the path becomes null, so two
+		// documents differing only there come out identical
+		m := match.Custom("a", func(val any) (any, error) { return nil, nil })
+		o1, e1 := m.JSON([]byte(`{"a":5,"b":1}`))
+		o2, e2 := m.JSON([]byte(`{"a":"other","b":1}`))
+		vxrt.Assert(len(e1)+len(e2) == 0, "C15:existing-path-no-error")
+		vxrt.Assert(gjson.GetBytes(o1, "a").Raw == "null" && string(o1) == string(o2), "C16:masked-difference-passes")
+	case 3: // a path that gjson computes rather than locates (an array count, a projection): the
+		// matcher either reports an error or yields a valid document; it never yields garbage
+		path := []string{"z.#", "z.#.id", "z.@reverse", "z.1.id"}[vxrt.Choice("computed-path", 4)]
+		doc := `{"z":[{"id":1},{"id":2}],"a":1}`
+		var out []byte
+		var errs []match.MatcherError
+		if kind == 0 {
+			out, errs = match.Any(path).JSON([]byte(doc))
+		} else {
+			out, errs = match.Custom(path, func(val any) (any, error) { return "<replaced>", nil }).JSON([]byte(doc))
+		}
+		vxrt.Assert(len(errs) > 0 || gjson.ValidBytes(out), "C15:result-is-valid-json")
+		if len(errs) == 0 {
+			vxrt.Assert(gjson.GetBytes(out, "a").Raw == "1", "C15:only-the-target-replaced")
+		}
 	case 0: // the same matcher value applied to an earlier document that lacks some of its paths
 		m := build("P", "a", "b", "c")
 		first := []string{`{"b":1,"c":1}`, `{"a":1,"c":1}`, `{"c":1}`, `{"x":1}`, `{"a":1,"b":2,"c":3}`}[vxrt.Choice("earlier-document", 5)]
